@@ -82,7 +82,7 @@ def run(c, a):
     pp = os.path.join(c.scratch, "plans.ndjson")
     nplans = extract_histories(g.out, pp)
     prefix = os.path.join(c.scratch, "flt")
-    out = json.loads(c.vh(["fault", "run", 0 if thorough else 60, 0 if thorough else 250, pp, prefix, NCPU], timeout=4 * 3600).stdout)
+    out = json.loads(c.vh(["fault", "run", 0 if thorough else 150, 0 if thorough else 600, pp, prefix, NCPU], timeout=4 * 3600).stdout)
     c.extra["generated"] = out
     traces = [t for t in ["%s.%02d.ndjson" % (prefix, i) for i in range(NCPU)] if os.path.exists(t) and os.path.getsize(t) > 0]
     # re-shard: the per-font files are unbalanced and can be large
